@@ -546,6 +546,47 @@ def run(ck):
             runs.append("garun %d %d %d %s %s %d %s" % (rng.getrandbits(32), rng.randint(2, 8), rng.choice([6, 10, 30]),
                                                         hx(rng.choice([0.0, 0.5, 0.9, 1.0])), hx(rng.choice([0.0, 0.04, 0.5, 1.0])),
                                                         n, " ".join("%d %d" % r for r in rg)))
+        # histories of DE searches in ONE process with different control parameters: every F must be drawn from the weight
+        # interval configured for THAT run and every crossover choice with THAT run's probability
+        druns = []
+        WS = [(0.5, 1.0), (0.0, 2.0), (0.1, 0.2), (1.5, 1.75), (0.9, 0.95)]
+        for _ in range(6 * T):
+            k = rng.choice([2, 3])
+            cfg = []
+            ws = rng.sample(WS, k)
+            for j in range(k):
+                cfg.append((rng.choice([0.1, 0.3, 0.6, 0.9]) + j * 0.01, ws[j][0], ws[j][1]))
+            druns.append(("deruns %d %d %d %d %s" % (rng.getrandbits(32), rng.randint(2, 4), rng.choice([8, 12]), k,
+                                                     " ".join("%s %s %s" % (hx(p), hx(a), hx(b)) for p, a, b in cfg)), cfg))
+        dout, dcr = pc.run_harness_resilient(harness, [l for l, _ in druns], timeout=100)
+        for i, ((l, cfg), ho) in enumerate(zip(druns, dout)):
+            ck.count()
+            hist["deruns"] = hist.get("deruns", 0) + 1
+            if ho is None or ho.startswith("CRASH"):
+                ck.add_violation("deruns:undefined-behaviour", "de_search executes undefined behaviour (sanitizer report)",
+                                 {"cases": [l], "impl": ho, "sanitizer": dcr.get(i, "")[-1500:]})
+                continue
+            parts = [x.strip() for x in ho.split(";") if x.strip()]
+            if len(parts) != len(cfg):
+                ck.add_diff({"line": l}, None, ho, what="harness rejected the case")
+                continue
+            for j, (part, (p, a, b)) in enumerate(zip(parts, cfg)):
+                rtok = part.split(" B")[0].split()[1:]
+                btok = part.split(" B")[1].split() if " B" in part else []
+                if rtok:
+                    ck.nontriv(("deruns", l, j))
+                wrong = [x for x in rtok if x != "%s:%s" % (hx(a), hx(b))]
+                if wrong:
+                    ck.add_violation("recombination::de:weight-interval",
+                                     "DE search #%d of one process is configured with the weight interval [%r, %r) but draws F from %s"
+                                     % (j, a, b, [tuple(fl(y) for y in x.split(":")) for x in wrong]), {"cases": [l], "impl": ho})
+                    break
+                wrongp = [x for x in btok if x != hx(p)]
+                if wrongp:
+                    ck.add_violation("recombination::de:crossover-probability",
+                                     "DE search #%d of one process is configured with p_cross = %r but draws its choices with %s"
+                                     % (j, p, [fl(x) for x in wrongp]), {"cases": [l], "impl": ho})
+                    break
         import subprocess
         try:
             rout, rcr = pc.run_harness_resilient(harness, runs, timeout=100)
